@@ -48,12 +48,17 @@ Qed.
 (* a state that differs from st only in the threads, whose raw channels hold old values or the new one *)
 Lemma chan_step_linv sx st who k a v st1 d :
   chan_step sx st who k a v = Ok (st1, d) ->
-  (forall x, v = Some x -> val_ok sx (types st) k x) ->
+  (a = IGN \/ forall x, v = Some x -> val_ok sx (types st) k x) ->
   LInv sx st -> LInv sx st1.
 Proof.
-  unfold chan_step, nth_opt. intros H Hv [Hr Ht Hc].
+  unfold chan_step, nth_opt. intros H Hv0 [Hr Ht Hc].
+  assert (Hv : forall r r' dd x, raw_apply (nth k (s_chans sx) null_spec) r a v = Ok (r', dd) -> In x (contents r') ->
+               In x (contents r) \/ val_ok sx (types st) k x).
+  { intros r r' dd x Ea Hx. destruct Hv0 as [->|Hv0].
+    - cbn [raw_apply] in Ea. injection Ea as <- _. now left.
+    - destruct (raw_apply_contents _ _ _ _ _ _ Ea x Hx) as [Ho|Hn]; [now left|right; now apply Hv0]. }
   destruct (nth_error (threads st) who) as [th|] eqn:Hn; [|discriminate].
-  destruct (nth_error (s_chans sx) k) as [sp|]; [|discriminate].
+  destruct (nth_error (s_chans sx) k) as [sp|] eqn:Hsp; [|discriminate].
   destruct (raw_apply sp (nth k (t_raw th) empty_raw) a v) as [[r' dd]|] eqn:Ea; [|discriminate].
   inversion H; subst st1 d. clear H.
   pose proof (nth_error_nth _ _ _ dummy_thread Hn) as Hth.
@@ -63,7 +68,8 @@ Proof.
     + cbn [t_raw with_raw] in Hx.
       destruct (nth_update_cases (t_raw th) k k' r' empty_raw) as [E2|E2]; rewrite E2 in Hx.
       * destruct (Nat.eq_dec k' k) as [->|Hk].
-        -- destruct (raw_apply_contents _ _ _ _ _ _ Ea x Hx) as [Hold|Hnew]; [|now apply Hv].
+        -- rewrite <- (nth_error_nth _ _ _ null_spec Hsp) in Ea.
+           destruct (Hv _ _ _ x Ea Hx) as [Hold|Hnew]; [|exact Hnew].
            apply (Hr who k x). unfold raw_of. rewrite Hth. exact Hold.
         -- (* r' stored at another index only if k' = k; here the update did not touch k' *)
            assert (E3 : nth k' (update (t_raw th) k r') empty_raw = nth k' (t_raw th) empty_raw) by (apply nth_update_other; congruence).
@@ -149,4 +155,277 @@ Proof.
     intros Hc tq cq Hcpu; cbn [threads set_thread store_body set_tasks] in Hcpu;
     repeat cpu_case Hcpu; cbn [t_cpu with_bstack] in Hcpu; try (now apply (Hc tq cq));
     try (apply (Hc who cq); rewrite Hth; exact Hcpu); try (now apply (Hc who cq)).
+Qed.
+
+Lemma linv_tasks sx st st1 :
+  raws st1 = raws st -> types st1 = types st ->
+  (forall tk', In tk' (tasks st1) -> exists tk, In tk (tasks st) /\ tk_gid tk' = tk_gid tk) ->
+  CpuOk sx st1 -> LInv sx st -> LInv sx st1.
+Proof.
+  intros Hraw Hty Htk Hcpu [Hr Ht Hc]. split.
+  - intros t k x Hx. rewrite Hty. apply (Hr t k x). rewrite <- (raw_of_same_raws st st1 Hraw). exact Hx.
+  - intros tk' Hin. destruct (Htk tk' Hin) as (tk & Hin0 & Hg). destruct (Ht tk Hin0) as (ty & Hty0 & Hg0).
+    exists ty. rewrite Hty, Hg. auto.
+  - exact Hcpu.
+Qed.
+
+Lemma chan_step_types sx st who k a v st1 d : chan_step sx st who k a v = Ok (st1, d) -> types st1 = types st /\ tasks st1 = tasks st.
+Proof.
+  unfold chan_step, nth_opt. intros H.
+  destruct (nth_error (threads st) who) as [th|]; [|discriminate].
+  destruct (nth_error (s_chans sx) k) as [sp|]; [|discriminate].
+  destruct (raw_apply sp (nth k (t_raw th) empty_raw) a v) as [[r' dd]|]; [|discriminate].
+  inversion H; subst. split; reflexivity.
+Qed.
+
+Lemma set_chans_linv sx who ws : forall st d0 st1 d,
+  set_chans sx st who ws d0 = Ok (st1, d) ->
+  (forall k x, In (k, Some x) ws -> val_ok sx (types st) k x) ->
+  LInv sx st -> LInv sx st1 /\ types st1 = types st /\ tasks st1 = tasks st.
+Proof.
+  induction ws as [|[k v] ws IH]; intros st d0 st1 d H Hv L; cbn [set_chans] in H.
+  - inversion H; subst. auto.
+  - destruct (chan_step sx st who k SET v) as [[st' d1]|] eqn:E; [|discriminate].
+    destruct (chan_step_types _ _ _ _ _ _ _ _ E) as [Ety Etk].
+    assert (L' : LInv sx st').
+    { apply (chan_step_linv _ _ _ _ _ _ _ _ E); [|exact L]. right. intros x ->. apply Hv. now left. }
+    destruct (IH _ _ _ _ H) as (L1 & T1 & K1); [|exact L'|].
+    + intros k' x Hin. rewrite Ety. apply Hv. now right.
+    + split; [exact L1|]. split; congruence.
+Qed.
+
+Lemma running_top_in st loom pid th mdl tk b : running_top st loom pid th mdl = Some (tk, b) -> In tk (tasks st).
+Proof.
+  unfold running_top, body_state_of. intros H.
+  destruct (model_stack th mdl) as [|[[m t] bb] r]; [discriminate|].
+  destruct (find_task st loom pid m t) as [[i tk0]|] eqn:Ef; [|discriminate].
+  destruct (find_body tk0 bb) as [[j b0]|]; [|discriminate].
+  destruct (bstate_eqb (EmuCoreDefs.b_state b0) BRunning); [|discriminate]. inversion H; subst.
+  unfold find_task in Ef. now destruct (find_task_from_in _ _ _ _ _ _ _ _ Ef).
+Qed.
+
+Lemma field_writes_ok sx st cfg ti tn bn (fields : list (tfield * nat)) :
+  cfg_ok sx cfg -> incl fields (tc_chans cfg) -> LInv sx st -> In tn (tasks st) ->
+  forall k x, In (k, Some x) (map (fun '(f, k) => (k, field_value ti tn bn f)) fields) -> val_ok sx (types st) k x.
+Proof.
+  intros [_ Hc] Hi L Hin k x H. apply in_map_iff in H as [[f k'] [E Hf]]. injection E as -> Ev.
+  specialize (Hc f k (Hi _ Hf)).
+  destruct f; cbn [field_value] in Ev; try (destruct Hc as [Ht Hs]; split; intros E; cbv zeta in *; congruence).
+  (* FType: the gid of a task's type *)
+  injection Ev as <-. split; [intros E; cbv zeta in *; congruence|]. intros _. exact (li_task _ _ L tn Hin).
+Qed.
+
+Lemma task_event_linv sx st who cfg mdl kind tid bid st1 dirty :
+  task_event sx st who cfg mdl kind tid bid = Ok (st1, dirty) -> cfg_ok sx cfg -> LInv sx st -> LInv sx st1.
+Proof.
+  unfold task_event, nth_opt. intros H Hcfg L.
+  destruct (nth_error (threads st) who) as [th|] eqn:Hn; [|discriminate].
+  destruct (nth_error (s_threads sx) who) as [ti|]; [|discriminate].
+  destruct (find_task st (ti_loom ti) (ti_pid ti) mdl tid) as [[i0 tk0]|]; [|discriminate].
+  match type of H with match ?o with Some _ => _ | None => _ end = _ => destruct o as [b|]; [|discriminate] end.
+  destruct (task_op st who th (ti_loom ti) (ti_pid ti) mdl kind tid b) as [s1|] eqn:Eop; [|discriminate].
+  destruct (task_op_frame _ _ _ _ _ _ _ _ _ _ Hn Eop) as [Hr1 _].
+  destruct (task_op_misc sx _ _ _ _ _ _ _ _ _ _ Hn Eop) as (Hty1 & Htk1 & Hc1).
+  assert (L1 : LInv sx s1) by (apply (linv_tasks sx st s1 Hr1 Hty1 Htk1); [apply Hc1; exact (li_cpu _ _ L)|exact L]).
+  match type of H with match ?ssr with Ok _ => _ | Err _ => _ end = _ => destruct ssr as [[s2 d1]|] eqn:Ess; [|discriminate] end.
+  assert (L2 : LInv sx s2 /\ types s2 = types s1 /\ tasks s2 = tasks s1).
+  { destruct Hcfg as [Hss _].
+    destruct (kind =? 120).
+    - destruct (chan_step_types _ _ _ _ _ _ _ _ Ess). split; [|auto].
+      apply (chan_step_linv _ _ _ _ _ _ _ _ Ess); [|exact L1]. right. intros x E. injection E as <-. now apply chan_static_val_ok.
+    - destruct (kind =? 101).
+      + destruct (chan_step_types _ _ _ _ _ _ _ _ Ess). split; [|auto].
+        apply (chan_step_linv _ _ _ _ _ _ _ _ Ess); [|exact L1]. right. intros x E. injection E as <-. now apply chan_static_val_ok.
+      + inversion Ess; subst. auto. }
+  destruct L2 as (L2 & Ty2 & Tk2).
+  match type of H with match ?w with Ok _ => _ | Err _ => _ end = _ => destruct w as [ws|] eqn:Ew; [|discriminate] end.
+  destruct (set_chans sx s2 who ws d1) as [[s3 d]|] eqn:Esc; [|discriminate].
+  assert (L3 : LInv sx s3).
+  { refine (proj1 (set_chans_linv _ _ _ _ _ _ _ Esc _ L2)).
+    assert (Hincl : incl (filter (fun '(f, _) => match f with FRank => 0 <=? ti_rank ti | _ => true end) (tc_chans cfg)) (tc_chans cfg))
+      by (intros y Hy; apply filter_In in Hy; tauto).
+    intros k x Hin.
+    (* every branch of the writes: values of the next running body, or nulls *)
+    repeat match type of Ew with
+    | (if ?c then _ else _) = _ => destruct c
+    | match ?o with Some _ => _ | None => _ end = _ => let E := fresh "Enext" in destruct o as [[? ?]|] eqn:E
+    | Err _ = Ok _ => discriminate Ew
+    end;
+    try (injection Ew as <-);
+    try (match goal with
+         | Enext : running_top s1 _ _ _ _ = Some (?tn, ?bn) |- _ =>
+           apply (field_writes_ok sx s2 cfg ti tn bn _ Hcfg Hincl L2); [rewrite Tk2; eapply running_top_in; exact Enext|exact Hin]
+         end).
+    all: try (apply in_map_iff in Hin as [[f k'] [E _]]; discriminate E). }
+  break_in H; inversion H; subst; exact L3.
+Qed.
+
+Lemma linv_types_grow sx st tys :
+  LInv sx st -> LInv sx (set_types st (types st ++ tys)).
+Proof.
+  intros [Hr Ht Hc]. split; cbn [types tasks threads set_types].
+  - intros t k x Hx. apply (val_ok_mono sx (types st)); [apply incl_appl, incl_refl|]. apply (Hr t k x). exact Hx.
+  - intros tk Hin. destruct (Ht tk Hin) as (ty & Hin' & Hg). exists ty. split; [apply in_or_app; auto|exact Hg].
+  - exact Hc.
+Qed.
+
+Theorem core_step_linv sx st who ev st1 dirty :
+  core_step sx st who ev = Ok (st1, dirty) -> ev_ok sx ev -> LInv sx st -> LInv sx st1.
+Proof.
+  intros H Hev L. unfold core_step, nth_opt in H. destruct ev.
+  - (* EvOvni *) destruct (oh_step sx st who e) as [s|] eqn:E; [|discriminate]. inversion H; subst. eapply oh_step_linv; eauto.
+  - (* EvChan *) destruct (nth_error (threads st) who) as [th|]; [|discriminate].
+    break_in H. apply (chan_step_linv _ _ _ _ _ _ _ _ H); [|exact L].
+    destruct v as [x|]; [|right; intros x Ex; discriminate Ex]. cbn [ev_ok] in Hev. destruct Hev as [->|Hev]; [now left|].
+    right. intros x' Ex. injection Ex as <-. now apply chan_static_val_ok.
+  - (* EvOoc *) destruct (nth_error (threads st) who) as [th|] eqn:Hn; [|discriminate].
+    apply (chan_step_linv _ _ _ _ _ _ _ _ H).
+    + right. intros x E. injection E as <-. cbn [types set_thread]. now apply chan_static_val_ok.
+    + apply (linv_same sx st); try reflexivity; [apply (raws_set_thread st who th); [exact Hn|reflexivity]| |exact L].
+      apply cpu_set_thread; [exact (li_cpu _ _ L)|]. intros c Hc. cbn [t_cpu with_ooc] in Hc.
+      apply (li_cpu _ _ L who c). now rewrite (nth_error_nth _ _ _ dummy_thread Hn).
+  - (* EvTask *) destruct (nth_error (threads st) who) as [th|]; [|discriminate].
+    destruct (need_ok (tc_need cfg) th); [|discriminate]. eapply task_event_linv; eauto.
+  - (* EvTaskCreate *) destruct (nth_error (threads st) who) as [th|]; [|discriminate].
+    destruct (need_ok need th); [|discriminate].
+    destruct (task_create sx st who mdl tid typeid par res pause relax) as [s|] eqn:E; [|discriminate].
+    inversion H; subst. unfold task_create, nth_opt in E.
+    destruct (nth_error (s_threads sx) who) as [ti|]; [|discriminate].
+    destruct (find_task st (ti_loom ti) (ti_pid ti) mdl tid); [discriminate|].
+    destruct (find_type (types st) (ti_loom ti) (ti_pid ti) mdl typeid) as [ty|] eqn:Ety; [|discriminate].
+    inversion E; subst. destruct L as [Hr Ht Hc]. split; cbn [types tasks threads set_tasks].
+    + exact Hr.
+    + intros tk Hin. apply in_app_or in Hin as [Hin|[<-|[]]]; [now apply Ht|]. cbn [tk_gid].
+      exists ty. split; [|reflexivity]. clear -Ety. induction (types st) as [|t0 r IH]; cbn [find_type] in Ety; [discriminate|].
+      destruct (Nat.eqb (ty_loom t0) (ti_loom ti) && (ty_pid t0 =? ti_pid ti) && (ty_model t0 =? mdl) && (ty_id t0 =? typeid));
+        [inversion Ety; now left|right; now apply IH].
+    + exact Hc.
+  - (* EvTypeCreate *) destruct (nth_error (threads st) who) as [th|]; [|discriminate].
+    destruct (need_ok need th); [|discriminate].
+    destruct (type_create sx st who mdl typeid gid) as [s|] eqn:E; [|discriminate].
+    inversion H; subst. unfold type_create, nth_opt in E. break_in E. inversion E; subst. now apply linv_types_grow.
+  - (* EvNop *) destruct (nth_error (threads st) who) as [th|]; [|discriminate].
+    destruct (t_ooc th); [discriminate|]. inversion H; subst. exact L.
+  - discriminate.
+Qed.
+
+(* ---------------------------------------------------------------- what an emitted line carries *)
+
+Lemma emit_value last cpu row ty fl v last' ls :
+  emit last cpu row ty fl v = Ok (last', ls) -> forall l, In l ls ->
+  l_cpu l = cpu /\ l_row l = row /\ l_type l = ty /\
+  match v with None => l_val l = 0 | Some x => l_val l = if has_flag fl PRV_NEXT then x + 1 else x end.
+Proof.
+  unfold emit. intros H l Hl.
+  repeat match type of H with
+  | (if ?b then _ else _) = _ => destruct b
+  | (match ?x with Some _ => _ | None => _ end) = _ => destruct x
+  | Err _ = Ok _ => discriminate H
+  | Ok _ = Ok _ => injection H as H1 H2; subst
+  end; cbn [In] in Hl; try contradiction; destruct Hl as [<-|[]]; cbn; auto.
+Qed.
+
+Lemma emit_all_values rs : forall last last' ls,
+  emit_all last rs = Ok (last', ls) ->
+  forall l, In l ls -> exists fl v, In ((l_cpu l, l_row l, l_type l), fl, v) rs /\
+    match v with None => l_val l = 0 | Some x => l_val l = if has_flag fl PRV_NEXT then x + 1 else x end.
+Proof.
+  induction rs as [|[[[[c r] t] fl] v] rs IH]; cbn [emit_all]; intros last last' ls H l Hl.
+  - injection H as <- <-. contradiction.
+  - destruct (emit last c r t fl v) as [[last1 l1]|] eqn:E1; [|discriminate H].
+    destruct (emit_all last1 rs) as [[last2 l2]|] eqn:E2; [|discriminate H].
+    injection H as <- <-. apply in_app_or in Hl as [Hl|Hl].
+    + destruct (emit_value _ _ _ _ _ _ _ _ E1 l Hl) as (-> & -> & -> & Hv). exists fl, v. split; [now left|exact Hv].
+    + destruct (IH _ _ _ E2 l Hl) as (f' & v' & Hin & Hv). exists f', v'. split; [now right|exact Hv].
+Qed.
+
+(* static conditions on the channel specs *)
+Record StaticOk (sx : static) : Prop := {
+  so_next : forall k, has_flag (cs_flags (spec_of sx k)) PRV_NEXT = false;
+  so_def : forall k x, cs_cpudef (spec_of sx k) = Some x -> chan_static_ok sx k x;
+  so_init : forall k x, cs_init (spec_of sx k) = Some x -> chan_static_ok sx k x
+}.
+
+Lemma raw_read_contents sp r x : raw_read sp r = Some x -> In x (contents r).
+Proof.
+  unfold raw_read, contents. destruct (cs_stack sp).
+  - destruct (r_stk r) as [|y s]; [discriminate|]. intros E. injection E as ->. cbn. now left.
+  - intros ->. apply in_or_app. right. now left.
+Qed.
+
+Lemma view_labelled sx st s x :
+  StaticOk sx -> LInv sx st -> In s (slots sx) -> view sx st s = Some x ->
+  slot_labelled sx (types st) s (if has_flag (flags_of sx s) PRV_NEXT then x + 1 else x).
+Proof.
+  intros SO L Hs Hv. destruct s as [t w|t k|c w|c k]; cbn [view flags_of] in *.
+  - destruct w as [|[|w]].
+    + (* CPU affinity *) unfold v_cpu in Hv. destruct (t_cpu (nth t (threads st) dummy_thread)) as [c|] eqn:Ec; [|discriminate].
+      injection Hv as <-. change (has_flag PRV_NEXT PRV_NEXT) with true. cbn iota. right.
+      pose proof (li_cpu _ _ L t c Ec). lia.
+    + right. exact I.
+    + change (has_flag PRV_SKIPDUP PRV_NEXT) with false. cbn iota.
+      unfold v_state in Hv. injection Hv as <-. destruct (t_state (nth t (threads st) dummy_thread)); cbn; [left; reflexivity|right; lia..].
+  - rewrite (so_next _ SO k). destruct (mode_ok _ _); [|discriminate].
+    destruct (Z.eq_dec x 0) as [->|Hx]; [left; reflexivity|right]. apply (li_raw _ _ L t k x). eapply raw_read_contents; eauto.
+  - right. destruct w as [|[|w]]; exact I.
+  - rewrite (so_next _ SO k). destruct (Z.eq_dec x 0) as [->|Hx]; [left; reflexivity|right].
+    destruct (th_running st c) as [t|].
+    + apply (li_raw _ _ L t k x). eapply raw_read_contents; eauto.
+    + apply chan_static_val_ok. now apply (so_def _ SO).
+Qed.
+
+Theorem step_values_labelled sx st who ev st' ls :
+  StaticOk sx -> ev_ok sx ev -> LInv sx st ->
+  step sx st who ev = Ok (st', ls) ->
+  LInv sx st' /\ incl (types st) (types st') /\
+  forall l, In l ls -> exists s, In s (slots sx) /\ key_of sx s = (l_cpu l, l_row l, l_type l) /\ slot_labelled sx (types st') s (l_val l).
+Proof.
+  unfold step. intros SO Hev L H.
+  destruct (core_step sx st who ev) as [[st1 dirty]|] eqn:Ec; [|discriminate H].
+  destruct (emit_all (prv_last st1) (all_reqs sx st st1 dirty)) as [[last' ls']|] eqn:Ee; [|discriminate H].
+  injection H as <- <-.
+  pose proof (core_step_linv _ _ _ _ _ _ Ec Hev L) as L1.
+  assert (L1' : LInv sx (set_last st1 last')) by (destruct L1 as [a b c]; split; assumption).
+  split; [exact L1'|]. split.
+  - (* the task types only grow *)
+    cbn [types set_last]. clear -Ec. unfold core_step, nth_opt in Ec. destruct ev.
+    + destruct (oh_step sx st who e) as [s|] eqn:E; [|discriminate]. inversion Ec; subst.
+      destruct (oh_step_misc _ _ _ _ _ E) as (-> & _). apply incl_refl.
+    + destruct (nth_error (threads st) who); [|discriminate]. break_in Ec.
+      destruct (chan_step_types _ _ _ _ _ _ _ _ Ec) as [-> _]. apply incl_refl.
+    + destruct (nth_error (threads st) who); [|discriminate].
+      destruct (chan_step_types _ _ _ _ _ _ _ _ Ec) as [-> _]. apply incl_refl.
+    + destruct (nth_error (threads st) who) as [th|] eqn:Hn; [|discriminate]. destruct (need_ok _ _); [|discriminate].
+      unfold task_event, nth_opt in Ec. rewrite Hn in Ec.
+      destruct (nth_error (s_threads sx) who) as [ti|]; [|discriminate].
+      destruct (find_task st (ti_loom ti) (ti_pid ti) mdl tid) as [[i0 tk0]|]; [|discriminate].
+      match type of Ec with match ?o with Some _ => _ | None => _ end = _ => destruct o as [b|]; [|discriminate] end.
+      destruct (task_op st who th (ti_loom ti) (ti_pid ti) mdl kind tid b) as [s1|] eqn:Eop; [|discriminate].
+      destruct (task_op_misc sx _ _ _ _ _ _ _ _ _ _ Hn Eop) as (Hty1 & _ & _).
+      match type of Ec with match ?ssr with Ok _ => _ | Err _ => _ end = _ => destruct ssr as [[s2 d1]|] eqn:Ess; [|discriminate] end.
+      assert (Ty2 : types s2 = types s1).
+      { destruct (kind =? 120); [now destruct (chan_step_types _ _ _ _ _ _ _ _ Ess)|].
+        destruct (kind =? 101); [now destruct (chan_step_types _ _ _ _ _ _ _ _ Ess)|]. now inversion Ess. }
+      match type of Ec with match ?w with Ok _ => _ | Err _ => _ end = _ => destruct w as [ws|]; [|discriminate] end.
+      destruct (set_chans sx s2 who ws d1) as [[s3 d]|] eqn:Esc; [|discriminate].
+      assert (Ty3 : types s3 = types s2).
+      { clear -Esc. revert s2 d1 s3 d Esc. induction ws as [|[k v] ws IH]; intros s2 d1 s3 d Esc; cbn [set_chans] in Esc.
+        - now inversion Esc.
+        - destruct (chan_step sx s2 who k SET v) as [[s' d']|] eqn:E; [|discriminate].
+          destruct (chan_step_types _ _ _ _ _ _ _ _ E) as [<- _]. eapply IH; eauto. }
+      break_in Ec; inversion Ec; subst; rewrite Ty3, Ty2, Hty1; apply incl_refl.
+    + destruct (nth_error (threads st) who); [|discriminate]. destruct (need_ok _ _); [|discriminate].
+      destruct (task_create sx st who mdl tid typeid par res pause relax) as [s|] eqn:E; [|discriminate].
+      inversion Ec; subst. unfold task_create, nth_opt in E. break_in E. inversion E; subst. apply incl_refl.
+    + destruct (nth_error (threads st) who); [|discriminate]. destruct (need_ok _ _); [|discriminate].
+      destruct (type_create sx st who mdl typeid gid) as [s|] eqn:E; [|discriminate].
+      inversion Ec; subst. unfold type_create, nth_opt in E. break_in E. inversion E; subst. cbn [types set_types]. apply incl_appl, incl_refl.
+    + destruct (nth_error (threads st) who); [|discriminate]. destruct (t_ooc _); [discriminate|]. inversion Ec; subst. apply incl_refl.
+    + discriminate.
+  - intros l Hl. destruct (emit_all_values _ _ _ _ Ee l Hl) as (fl & v & Hin & Hv).
+    destruct (all_reqs_slot _ _ _ _ _ _ _ Hin) as (s & Hs & Hk & -> & ->).
+    exists s. split; [exact Hs|]. split; [symmetry; exact Hk|]. cbn [types set_last].
+    destruct (view sx st1 s) as [x|] eqn:Ev.
+    + rewrite Hv. now apply view_labelled.
+    + left. exact Hv.
 Qed.
